@@ -16,7 +16,7 @@ Has(f) == f \in DOMAIN Ev
 Fld(f, d) == IF Has(f) THEN Ev[f] ELSE d
 
 Dummy == [id |-> "-", nf |-> 0, off |-> <<>>, span |-> <<>>, pre |-> <<>>, prf |-> <<>>, prio |-> <<>>, lm |-> "none", loff |-> 0,
-          size |-> 1, cs |-> 1, cfg |-> 0, thr |-> 0, f0 |-> <<>>, rd |-> <<>>, ro |-> 2, np |-> 0, nw |-> 0, nb |-> 0, tmo |-> 1000]
+          size |-> 1, cs |-> 1, cfg |-> 0, thr |-> 0, f0 |-> <<>>, rd |-> <<>>, ro |-> 2, pt |-> <<>>, free |-> FALSE, np |-> 0, nw |-> 0, nb |-> 0, tmo |-> 1000]
 Slack == 3000      \* ms a wait may exceed the configured timeout by (scheduling noise), far below "blocks forever"
 
 MonInit ==
@@ -31,10 +31,11 @@ MonNext ==
     /\ UNCHANGED <<pc, runner, bc, brunner, prio>>
     /\ sc' = IF Ev.ev = "Reset" THEN Ev.sc ELSE sc
     /\ pf' = CASE Ev.ev = "Reset" -> "none"
-               [] Ev.ev = "PrefetchEnd" -> "end"
-               [] Ev.ev \in {"Range", "AsyncThreshold", "BlobCacheStall", "BlobCache", "ReaderCache"} -> "running"
+               [] Ev.ev \in {"PrefetchEnd", "Drain"} -> "end"      \* Drain: the rest of the prefetch ran to its end unobserved
+               [] Ev.ev = "Range" -> "ranged"            \* effective range decided, threshold not yet looked at
+               [] Ev.ev \in {"AsyncThreshold", "BlobCacheStall", "BlobCache", "ReaderCache"} -> "running"
                [] OTHER -> pf
-    /\ pfres' = CASE Ev.ev = "Reset" -> "none" [] Ev.ev = "PrefetchEnd" -> Ev.res [] OTHER -> pfres
+    /\ pfres' = CASE Ev.ev = "Reset" -> "none" [] Ev.ev = "PrefetchEnd" -> Ev.res [] Ev.ev = "Drain" -> "drained" [] OTHER -> pfres
     /\ bg' = CASE Ev.ev = "Reset" -> "none" [] Ev.ev = "BgFinish" -> "end" [] OTHER -> bg
     /\ bgres' = CASE Ev.ev = "Reset" -> "none" [] Ev.ev = "BgFinish" -> Ev.r [] OTHER -> bgres
     /\ psize' = CASE Ev.ev = "Reset" -> -1 [] Ev.ev = "Range" -> Ev.size [] OTHER -> psize
@@ -51,7 +52,7 @@ MonNext ==
                 [] Ev.ev = "WaitCall" -> [wcl EXCEPT ![Ev.w] = (waiter = "closed")]   \* closed BEFORE the call
                 [] OTHER -> wcl
     /\ last' = [act |-> Ev.ev, req |-> ToSet(Fld("req", <<>>)), f |-> Fld("f", 0), ok |-> Fld("ok", TRUE),
-                res |-> Fld("res", "-"), r |-> Fld("r", "-"), want |-> Fld("want", "-"), ms |-> Fld("ms", 0), w |-> Fld("w", 0)]
+                res |-> Fld("res", "-"), r |-> Fld("r", "-"), want |-> Fld("want", "-"), at |-> Fld("at", "-"), by |-> Fld("by", "-"), ms |-> Fld("ms", 0), w |-> Fld("w", 0)]
 
 MonSpec == MonInit /\ [][MonNext]_mvars
 
@@ -67,6 +68,23 @@ MonConfiguredSizeCapped ==
 MonCompletes ==
     /\ (last.act \in {"BlobCache", "ReaderCache", "BgFinish"} /\ last.want = "ok") => last.r = "ok"
     /\ (last.act = "PrefetchEnd" /\ last.want = "ok") => last.res = "ok"
+
+\* Wait returns nil only when that is due (Prefetch!WaitNilOnlyIfEndedOrAsync on the recorded states: the waiter
+\* channel is probed after every step, wc holds the recorded wait outcomes, Effective is computed from the measured
+\* layout and the configuration). In a free-running trace the steps of prefetch are not recorded: the background
+\* excuse then applies at any time before the end.
+MonWaitNilOnlyIfEndedOrAsync ==
+    /\ (~sc.free /\ waiter = "closed") =>
+            \/ pf = "end"
+            \/ sc.thr > 0 /\ Effective > sc.thr /\ pf \in {"ranged", "running"}
+            \/ \E w \in DOMAIN wc : wc[w] = "timeout"
+    \* free-running traces: the hook in waiter.done() reports who closes the waiter (a waiting call's timeout branch, or
+    \* the prefetch goroutine) and the last gate the prefetch goroutine had passed: the end of the body (no-prefetch
+    \* return, failed fetch, end of the caching walk), or the prefetch body under way with an effective range above the threshold (when exactly the body releases the
+    \* waiters in that case is not part of the statement)
+    /\ (last.act = "WaiterClosed" /\ last.by = "prefetch") =>
+            \/ last.at \in {"layer.prefetch.noprefetch", "layer.prefetch.fetched", "layer.prefetch.cached"}
+            \/ last.at \in {"layer.prefetch.start", "layer.prefetch.range"} /\ sc.thr > 0 /\ Effective > sc.thr
 
 \* waiting is bounded: no wait blocks forever, none exceeds the timeout by more than scheduling noise,
 \* and a timeout is not reported early
